@@ -31,6 +31,10 @@ CHECKS.update({
    text="For each of the 17 capacity-taking decoders every store, memset/memcpy and callee write through the output parameter is bounded: offset+size <= capacity*elemsize is proved from dominating guards, clamps and loop bounds, interprocedurally (callee write-extent summaries, and context-sensitive re-proving of a callee under the caller's facts). Local arrays and capacity-sized heap blocks inside the decoders are checked too. Sound but incomplete: unproven = reported. Does not decide whether the result is 0 or a correct prefix.",
    note=TB + "size_t arithmetic on caller-trusted capacities does not wrap; distinct pointer parameters do not overlap; asserts are compiled out (NDEBUG).",
    tech="static analysis: symbolic region-bounds analysis with linear forms, memory value numbering and a small entailment prover on LLVM IR"),
+ "C14": dict(engine="E-BOUNDS", cat="other", ref="DESIGN.md 4/C14, 3/E-BOUNDS",
+   text="For each of the 8 entry points that are told their input size: the length parameter must flow into a branch (directly, through a reader-object field, or in a callee), and every load, memcpy source and callee read through the input pointer is proved to end at or before the declared length from dominating conditions (end-pointer tests, n-vs-first-byte tests, switch constants, division guards, strided cursors with symbolic stride), interprocedurally. Unproven = reported. Termination is not decided.",
+   note=TB + "Values decoded from input bytes are unconstrained; arithmetic is over mathematical integers (wrap of input-derived products is not modelled - see level text); 3 known findings (both Elias array decoders, varintRLEGetRunCount).",
+   tech="static analysis: symbolic region-bounds analysis of reads + length-parameter use-def reachability on LLVM IR"),
 })
 NA = {
  "C02": "losslessness of array codecs is value-level equality after arithmetic; no clause has a shape in the code that static analysis can decide (DESIGN.md 4/C02)",
